@@ -382,9 +382,11 @@ type Case struct {
 	// MITM sessions: Connect is the CONNECT that opened the tunnel, Session the requests sent inside the TLS
 	// session; Index -1 denotes the CONNECT itself
 	Connect *accessrig.RawReq `json:"connect,omitempty"`
-	Targets []string          `json:"targets"`         // where the exchange really went
-	Truth   bool              `json:"target_is_local"` // direct probe without the proxy reached the loopback-only origin
-	coq     string
+	// MITM: clock value set once the tunnel was established (Clock is then the CONNECT's clock)
+	InnerClock *[3]int  `json:"inner_clock,omitempty"`
+	Targets    []string `json:"targets"`         // where the exchange really went
+	Truth      bool     `json:"target_is_local"` // direct probe without the proxy reached the loopback-only origin
+	coq        string
 }
 
 // targetsOf lists the host names the exchange was really sent towards.
@@ -639,6 +641,7 @@ type Meta struct {
 	ByCred        map[string]int `json:"exchanges_by_credential_variant"`
 	ByHost        map[string]int `json:"exchanges_by_host_variant"`
 	ByPos         map[string]int `json:"exchanges_by_position_on_connection"`
+	InsideMITM    map[string]int `json:"exchanges_inside_mitm_by_status_and_refusing_check"`
 	Refused       int            `json:"refused"`
 	Forwarded     int            `json:"forwarded"`
 	Skipped       int            `json:"skipped_unparsable"`
@@ -785,7 +788,7 @@ func main() {
 	}
 	r := rng.New(*seed)
 	m := Meta{ShardSize: 400, ShardKinds: map[string]int{}, ByStatus: map[string]int{}, ByMethod: map[string]int{},
-		ByCred: map[string]int{}, ByHost: map[string]int{}, ByPos: map[string]int{}}
+		ByCred: map[string]int{}, ByHost: map[string]int{}, ByPos: map[string]int{}, InsideMITM: map[string]int{}}
 
 	// the hosts file the proxy reads (hostsfile.LocalhostAliases opens the Location variable of the
 	// kevinburke/hostsfile library): this machine's file plus loopback aliases written with capital letters
@@ -828,6 +831,9 @@ func main() {
 		reqs    []ReqSpec
 		connect *accessrig.RawReq // MITM: the CONNECT; session = requests inside the TLS session
 		creq    ReqSpec
+		// MITM with a time frame: the clock is moved to this value once the tunnel is established, so the
+		// requests inside it meet another verdict of the time-frame check than the CONNECT did
+		innerClock *[3]int
 	}
 	var jobs []job
 	var replayPair *Case
@@ -850,7 +856,12 @@ func main() {
 			jobs = append(jobs, job{spec: c.Spec, clock: *c.PrevClock, session: c.PrevSession, reqs: make([]ReqSpec, len(c.PrevSession))})
 		}
 		if c.PrevSpec == nil {
-			jobs = append(jobs, job{spec: c.Spec, clock: c.Clock, session: c.Session, reqs: make([]ReqSpec, len(c.Session)), connect: c.Connect})
+			jb := job{spec: c.Spec, clock: c.Clock, session: c.Session, reqs: make([]ReqSpec, len(c.Session)), connect: c.Connect}
+			if c.InnerClock != nil && c.Connect != nil {
+				jb.innerClock = c.InnerClock
+				jb.clock = clocks[0] // a clock at which the CONNECT is accepted
+			}
+			jobs = append(jobs, jb)
 		}
 	} else {
 		budget := 70
@@ -888,10 +899,14 @@ func main() {
 					}
 					good := ReqSpec{Method: "CONNECT", Host: "example.test:443", Form: "authority", Version: "1.1",
 						Headers: credVariants()[1].lines, CredTag: "exact", HostTag: "plain"}
-					for k := 0; k < len(inner); {
+					for k, nth := 0, 0; k < len(inner); nth++ {
 						craw := good.raw()
 						craw.Inner = ""
 						j := job{spec: s, clock: c, connect: &craw, creq: good}
+						if s.TimeFrame != nil && nth%2 == 1 {
+							ic := clocks[(nth/2)%len(clocks)]
+							j.innerClock = &ic
+						}
 						for n := 1 + r.Intn(4); n > 0 && k < len(inner); n, k = n-1, k+1 {
 							j.session = append(j.session, inner[k].raw())
 							j.reqs = append(j.reqs, inner[k])
@@ -976,7 +991,12 @@ func main() {
 		var obs []accessrig.Obs
 		sess, reqSpecs := j.session, j.reqs
 		if j.connect != nil {
-			co, io := rig.SessionMITM(cur, *j.connect, j.session)
+			var hook func()
+			if j.innerClock != nil {
+				ic := *j.innerClock
+				hook = func() { now = clockTime(ic[0], ic[1], ic[2]) }
+			}
+			co, io := rig.SessionMITMWith(cur, *j.connect, j.session, hook)
 			// the CONNECT is case -1 of the session: put it in front
 			obs = append([]accessrig.Obs{co}, io...)
 			sess = append([]accessrig.RawReq{*j.connect}, j.session[:len(io)]...)
@@ -1029,6 +1049,13 @@ func main() {
 			}
 			if j.connect != nil {
 				c.Connect, c.Index = j.connect, i-1
+				if j.innerClock != nil {
+					c.InnerClock = j.innerClock
+					if i > 0 {
+						c.Clock = *j.innerClock // the request inside the tunnel was judged at the moved clock
+						c.Connect = j.connect
+					}
+				}
 			}
 			cases = append(cases, c)
 			m.Exchanges++
@@ -1045,6 +1072,23 @@ func main() {
 				pos = "after-" + fmt.Sprint(i) + "-exchanges"
 			}
 			m.ByPos[pos]++
+			if j.connect != nil && i > 0 {
+				// which check answered, read off the proxy's own error text
+				why := "forwarded"
+				switch e := o.Header.Get("X-Forwarder-Error"); {
+				case strings.Contains(e, "authentication"):
+					why = "basic-auth"
+				case strings.Contains(e, "localhost"):
+					why = "localhost"
+				case strings.Contains(e, "time frame"):
+					why = "time-frame"
+				case strings.Contains(e, "denied"):
+					why = "deny-domains"
+				case e != "":
+					why = "other-error"
+				}
+				m.InsideMITM[fmt.Sprintf("%d/%s", o.Status, why)]++
+			}
 			if o.FromPeer != "" {
 				m.Forwarded++
 			} else if o.Status == 407 || o.Status == 403 || o.Status == 451 {
